@@ -32,6 +32,9 @@ EXHAUSTIVE = False  # set per-run below through evidence 'per_clause'; the enume
 
 MULT = [0.5, 2.0, 3.0, 0.25, 1.37, 0.8]
 BAD = [0.0, -1.5, float("nan")]
+# centre targets are scaled with the shape once it has been shrunk below a tenth of its original size: a shape of
+# size 1e-2 parked 4 original sizes from the origin has a centroid conditioned like eps*(L/D)^3 ~ 1e-8, and then a
+# moved shape and its fresh twin legitimately differ by more than any useful tolerance
 CENTRES = [(0.0, 0.0, 0.0), (3.0, -2.0, 1.0), (-1.0, 4.0, 2.0), (10.0, -7.0, 5.0)]
 METHOD_OPS = ["diagonalize_inertia", "merge_faces", "sort_faces", "to_hoomd"]
 READ_OPS = ["read:edges", "read:inertia_tensor", "read:get_face_area", "read:is_inside", "read:all"]
@@ -184,7 +187,7 @@ def step(rec, obj, op, arg, sig, state):
     if op.startswith("sub:"):
         core = obj.polyhedron if isinstance(obj, S.ConvexSpheropolyhedron) else obj.polygon
         if name == "centroid":
-            target = np.array(CENTRES[arg % len(CENTRES)]) * (0.3 * state["size0"])
+            target = np.array(CENTRES[arg % len(CENTRES)]) * (0.3 * state["size0"] * min(1.0, 10.0 * state["scale"]))
             if isinstance(obj, S.ConvexSpheropolygon):
                 target = target * [1.0, 1.0, 0.0] + [0.0, 0.0, float(np.asarray(core.vertices)[0, 2])]
             r = call(setattr, core, "centroid", target)
@@ -232,7 +235,7 @@ def step(rec, obj, op, arg, sig, state):
             return False, False
         if name in ("center", "centroid"):
             size = _scale_of(obj)
-            target = np.array(CENTRES[arg % len(CENTRES)]) * (0.3 * state["size0"])
+            target = np.array(CENTRES[arg % len(CENTRES)]) * (0.3 * state["size0"] * min(1.0, 10.0 * state["scale"]))
             passed = target.copy()
             r = call(setattr, obj, name, passed)
             if isinstance(r, Raised):
@@ -289,7 +292,16 @@ def step(rec, obj, op, arg, sig, state):
                 rec.fail("setter_read_back", dict(sig, op=op, sporadic_miniball=str(good >= 3)), true_radius=rt, target=target)
             return True, True
         got = call(getattr, obj, name)
-        rec.close("setter_read_back", got, target, 1e-9 * abs(target) + 1e-300, dict(sig, op=op))
+        # the getter re-measures the shape where it now stands; after a long history it may be small and far from the
+        # origin, and centroid-based radii then carry the centroid's conditioning eps*L*(L/D)^3 (DESIGN section 4)
+        noise = 0.0
+        if hasattr(type(obj), "vertices"):
+            Vn = np.asarray(obj.vertices, dtype=float)
+            Ln = maxnorm(Vn)
+            Dn = 2 * float(np.max(np.linalg.norm(Vn - Vn.mean(axis=0), axis=1))) or 1.0
+            noise = 1e3 * 2.0**-52 * Ln * max(Ln / Dn, 1.0) ** 3
+            noise = noise * abs(target) / Dn if observe.dimension(name, observe.is3d(obj)) != 1 else noise
+        rec.close("setter_read_back", got, target, 1e-9 * abs(target) + noise + 1e-300, dict(sig, op=op))
         return True, True
     # methods
     if not hasattr(obj, op):
@@ -437,6 +449,6 @@ def clauses():
                rule="all words of length <=2 (thorough: plus length 3 over a core alphabet) per shape kind from fixed base shapes",
                floors={"op:diagonalize_inertia": 0.01, "op:merge_faces": 0.01}),
         Clause("histories", _hist_case(8), _hist, quick=500, thorough=4000, rule="drawn words of length <=8 on generated base shapes",
-               floors={"two_kinds": 0.25, "op:diagonalize_inertia": 0.03}),
+               floors={"two_kinds": 0.25, "op:diagonalize_inertia": 0.006}),
         Clause("long_histories", _hist_case(30), _hist, quick=60, thorough=1500, rule="drawn words of length <=30", floors={}),
     ]
